@@ -26,7 +26,7 @@ def check(run):
     records = []
     done = {}
     Lmax = 10 if thorough else 8
-    for dev in ('T1', 'T2', 'T3', 'TY', 'TL'):
+    for dev in ('T1', 'T2', 'T3', 'TY', 'TL', 'TM'):
         for L in range(1, Lmax + 1):
             st = run.explore(f'{dev}: header of {L} symbolic bytes over [A-Za-z0-9_:*?], with and without a parameter, LF', FREE + ({'device': dev, 'L': L},), 2400 if thorough else 300,
                              required=(L <= 6))
@@ -35,7 +35,7 @@ def check(run):
                 done[dev] = L
             else:
                 break
-    for dev in ('T1', 'T2', 'T3', 'TY', 'TR', 'Q2', 'TL'):
+    for dev in ('T1', 'T2', 'T3', 'TY', 'TR', 'Q2', 'TL', 'TM'):
         st = run.explore(f'{dev}: every declared spelling (short/long/optional combinations) x 9 near-miss mutations (one position symbolic over all header characters, appended symbolic '
                          f'character, dropped character, dropped / duplicated level, query mark toggled, leading colon, every prefix of every mnemonic)', NEAR + ({'device': dev},), 1200)
         records.extend(st['records'])
@@ -57,7 +57,7 @@ def check(run):
     cov['vacuity']['leaves_per_mutation'] = muts
     if not refs.get('handler') or not refs.get('undefined') or not refs.get('malformed'):
         raise Inconclusive('a reference verdict class was never exercised: ' + str(refs))
-    cov['bounds'] = {'free_form_header_length_completed': done, 'devices': 'T1 (single letters, same mnemonic at several levels), T2 (short/long, optional nodes anywhere, digits, underscore, non-prefix short form, command+query on one node, common commands, sync+async), T3 = T2 + StandardCommands + ErrorCommands, TY, TR, Q2, TL (mnemonics of 13-28 characters, siblings that differ in an underscore vs a letter, digits, one-letter and prefix-related names Z / ZZ / Z_ / Z0)',
+    cov['bounds'] = {'free_form_header_length_completed': done, 'devices': 'T1 (single letters, same mnemonic at several levels), T2 (short/long, optional nodes anywhere, digits, underscore, non-prefix short form, command+query on one node, common commands, sync+async), T3 = T2 + StandardCommands + ErrorCommands, TY, TR, Q2, TL (mnemonics of 13-28 characters, siblings that differ in an underscore vs a letter, digits, one-letter and prefix-related names Z / ZZ / Z_ / Z0), TM (sibling nodes that share a short form: MEASure / MEASurement, OUTPut / OUTPut1; a capitals-only user node SYSTEM next to the standard SYSTem commands; numeric suffixes; optional last node)',
                      'outside': 'declaration sets other than the corpus in devices.json (the macro runs inside rustc; its host code cannot be encoded, see DESIGN section 6) -- any change of the macro that alters a corpus tree is caught because the reference does not use the macro; headers longer than the free-form bound that are not near-misses of a declared spelling'}
     run.evidence['assumptions'] = ['reference: short form = declared text minus lower-case letters, long form = full text, optional nodes present or omitted, query mark as declared (mirsym/oracle.py expand_decl / ref_header)',
                                    'standard commands get the ids after the user commands in the order VERSion, ERRor[:NEXT], ERRor:COUNt and are observed through their responses']
@@ -81,7 +81,7 @@ def confirm(run, v):
         nargs = 1
     ref = ref_header(tree, lambda c: bool(c), list(body))
     detail = {'reference': ref}
-    ok_all = True
+    ok_all = False      # reproduced in the dev or the release profile (both recorded)
     for rel in (False, True):
         o = run.native([{'entry': 'run', 'device': v['device'], 'input': v['input'], 'cap': None}], release=rel)[0]
         calls = [e[1] for e in o.get('events', []) if e[0] == 'call']
@@ -104,5 +104,5 @@ def confirm(run, v):
         else:
             ok = bool(calls) or len(errs) != 1
         detail['release' if rel else 'dev'] = {'observation': o, 'reproduced': ok}
-        ok_all = ok_all and ok
+        ok_all = ok_all or ok
     return ok_all, detail
